@@ -593,7 +593,13 @@ func (r *runner) classify(m missNode) (shape, why string) {
 				}
 			}
 		}
-		return "record-missing-before-prune:" + kind, desc + " was not in the DB before the last prune either"
+		deadFork := false
+		for _, ev := range r.events {
+			if ev.Abandoned && ev.Saved {
+				deadFork = true
+			}
+		}
+		return fmt.Sprintf("record-missing-before-prune:%s/memtree=%v/dead-fork-in-history=%v", kind, r.h.Cfg.MemTree, deadFork), desc + " was not in the DB before the last prune either"
 	}
 	bound := r.pruneCur - int64(r.h.Cfg.PH)
 	// entries of one key the prune considers, newest first (reverse DB order, as the prune iterates); entries at or
